@@ -55,6 +55,14 @@ Proof. exact ptr_len_covers_family_struct_fixed_holds. Qed.
 Theorem C16_bind_getsockname_roundtrip_fixed : bind_getsockname_roundtrip_fixed.
 Proof. exact bind_getsockname_roundtrip_fixed_holds. Qed.
 
+(** H29 (repaired, ae7d306): the unnamed Unix address with every length the kernel reports for it,
+    0 included (recvmsg from a sender that is not bound). *)
+Theorem C16_unix_unnamed_every_reported_length : unix_unnamed_every_reported_length.
+Proof. exact unix_unnamed_every_reported_length_holds. Qed.
+
+Theorem C16_unix_length_zero_h29_refuted : unix_length_zero_h29_refuted.
+Proof. exact unix_length_zero_h29_refuted_holds. Qed.
+
 Check C16_sockaddr_roundtrip_except_unix_path : sockaddr_roundtrip_except_unix_path.
 Check C16_h7_unix_path_reads_back_unnamed : unix_path_reads_back_unnamed.
 Check C16_sockaddr_roundtrip_refuted : sockaddr_roundtrip_refuted_stmt.
@@ -79,3 +87,7 @@ Print Assumptions C16_bind_getsockname_roundtrip_except_unix.
 Print Assumptions C16_sockaddr_roundtrip_fixed.
 Print Assumptions C16_ptr_len_covers_family_struct_fixed.
 Print Assumptions C16_bind_getsockname_roundtrip_fixed.
+Check C16_unix_unnamed_every_reported_length : unix_unnamed_every_reported_length.
+Check C16_unix_length_zero_h29_refuted : unix_length_zero_h29_refuted.
+Print Assumptions C16_unix_unnamed_every_reported_length.
+Print Assumptions C16_unix_length_zero_h29_refuted.
